@@ -201,7 +201,7 @@ func (g *lgen) hsCmd(idx int) cmdJ {
 		if vh.Chance(r, 0.05) {
 			c.Orig, c.RawOrig = nil, hex.EncodeToString(vh.Bytes(r, r.IntN(6)))
 		}
-		if vh.Chance(r, 0.04) {
+		if c.Orig != nil && vh.Chance(r, 0.04) {
 			inner := *c.Orig
 			n := cmdJ{K: "delta", N1: 31, N2: 9, N3: hs, Orig: &inner}
 			c.Orig = &n
@@ -351,8 +351,19 @@ func genC13(r *rand.Rand, tier string, i int) input {
 			in.Cfg.Mig = map[uint16]uint64{hsB: tgtSlot}
 		}
 		n := 4 + r.IntN(maxLen)
+		multi := vh.Chance(r, 0.25) // multi-hash-slot commands spanning hash slots 11 and 12 (fence is per item hash slot)
 		for j := 0; j < n; j++ {
 			y := r.IntN(100)
+			if multi && y < 12 {
+				a, b := g.latestItem(), g.latestItem()
+				a.HS, b.HS = u16p(hsA), u16p(hsB)
+				c := cmdJ{K: "latest_batch", Items: []cmdJ{a, b}}
+				if vh.Chance(r, 0.4) {
+					c = cmdJ{K: "latest_batch", HS: u16p(hsB), Items: []cmdJ{b, a}}
+				}
+				in.Ops = append(in.Ops, c)
+				continue
+			}
 			switch {
 			case y < 45:
 				in.Ops = append(in.Ops, g.user())
